@@ -150,10 +150,34 @@ def rechunk_h5ad(path, chunks, layer=None):
                     d.attrs[k] = v
 
 
+def retype_index_arrays(path, dtype, layer=None):
+    """rewrite indices / indptr of a sparse matrix group in another integer type that holds them
+    (int64 as anndata writes for very large matrices, unsigned / narrow types as other writers produce)"""
+    key = 'X' if layer is None else f'layers/{layer}'
+    with h5py.File(path, 'a') as f:
+        grp = f[key]
+        if isinstance(grp, h5py.Dataset):
+            return
+        for name in ('indices', 'indptr'):
+            arr = grp[name][()]
+            dt = np.dtype(dtype)
+            if arr.size and int(arr.max()) > np.iinfo(dt).max:
+                dt = np.dtype('int64')
+            attrs = dict(grp[name].attrs)
+            chunks = grp[name].chunks
+            del grp[name]
+            d = grp.create_dataset(name, data=arr.astype(dt), chunks=chunks if arr.size else None)
+            for k, v in attrs.items():
+                d.attrs[k] = v
+
+
 def write_query(path, q):
     x = expand_query(q)
-    return write_h5ad(path, x, q['cells'], q['genes'], enc=q.get('enc', 'csr'),
-                      layer=q.get('layer'), rechunk=q.get('rechunk'))
+    write_h5ad(path, x, q['cells'], q['genes'], enc=q.get('enc', 'csr'),
+               layer=q.get('layer'), rechunk=q.get('rechunk'))
+    if q.get('idx_dtype') and q.get('enc', 'csr') != 'dense':
+        retype_index_arrays(path, q['idx_dtype'], q.get('layer'))
+    return path
 
 
 def write_map_case(d, spec):
